@@ -947,7 +947,7 @@ def emit_simple_type(tdef, name=None):
 
 def emit_schema(tdefs):
     """one global element e<i> per tdef; returns (xsd text, line number -> type index)"""
-    lines = ['<xs:schema xmlns:xs="http://www.w3.org/2001/XMLSchema">',
+    lines = ['<xs:schema xmlns:xs="http://www.w3.org/2001/XMLSchema" xmlns:p="urn:p">',
              '<xs:element name="r"><xs:complexType><xs:sequence><xs:any minOccurs="0" maxOccurs="unbounded" processContents="strict"/></xs:sequence></xs:complexType></xs:element>',
              '<xs:notation name="n1" public="n1"/>']
     line2type = {}
@@ -961,6 +961,27 @@ def emit_schema(tdefs):
         line2type[len(lines)] = i
     lines.append("</xs:schema>")
     return "\n".join(lines) + "\n", line2type
+
+
+def tdef_label(t):
+    """type description without facet values (for grouping)"""
+    if "b" in t:
+        return t["b"]
+    if "l" in t:
+        return "list(%s)" % tdef_label(t["l"])
+    if "u" in t:
+        return "union(%s)" % ",".join(tdef_label(m) for m in t["u"])
+    return "%s{%s}" % (tdef_label(t["r"]), ",".join(sorted(set(k for k, v in t["f"]))))
+
+
+def has_pattern(t):
+    if "b" in t:
+        return False
+    if "l" in t:
+        return has_pattern(t["l"])
+    if "u" in t:
+        return any(has_pattern(m) for m in t["u"])
+    return any(k == "pattern" for k, v in t["f"]) or has_pattern(t["r"])
 
 
 def tdef_str(t):
